@@ -61,7 +61,11 @@ func (conf *ClientConf) propagate() {
 			tgt = conf.Sources[i]
 			origStat := tgt.StatPayload
 			origBackoff := tgt.ErrorBackoff
+			origHidden := tgt.IncludeHidden
 			reflectutil.CopyStruct(tgt, src)
+			if tgt.isIncludeHiddenSet {
+				tgt.IncludeHidden = origHidden
+			}
 			if tgt.isStatPayloadSet {
 				tgt.StatPayload = origStat
 			}
@@ -154,8 +158,9 @@ type SourceConf struct {
 	// override a true value because a false boolean value is the "empty"
 	// value and it's impossible to know if it was set in the config file or
 	// if it was just the default value because it wasn't specified.
-	isStatPayloadSet  bool
-	isErrorBackoffSet bool
+	isStatPayloadSet   bool
+	isErrorBackoffSet  bool
+	isIncludeHiddenSet bool
 }
 
 func (c *SourceConf) GenMappingVars() map[string]string {
@@ -232,6 +237,7 @@ func (ss *SourceConf) applyAux(aux *auxSourceConf) (err error) {
 		ss.IncludeHidden = true
 	case strings.ToLower(aux.IncludeHidden) == "false":
 		ss.IncludeHidden = false
+		ss.isIncludeHiddenSet = true
 	}
 	var patterns []*regexp.Regexp
 	for _, s := range append(aux.Include, aux.Ignore...) {
@@ -501,22 +507,22 @@ type TargetConf struct {
 }
 
 type auxTargetConf struct {
-	Name                            string        `yaml:"name" json:"name"`
-	Key                             string        `yaml:"key" json:"key"`
-	Host                            string        `yaml:"http-host" json:"http-host"`
-	PathPrefix                      string        `yaml:"http-path-prefix" json:"http-path-prefix"`
-	TLSCertPath                     string        `yaml:"http-tls-cert" json:"http-tls-cert"`
-	TLSCertBase64                   string        `yaml:"http-tls-cert-encoded" json:"http-tls-cert-encoded"`
-	Protocol                        string        `yaml:"protocol" json:"protocol"`
-	HTTP3Port                       int           `yaml:"http3-port" json:"http3-port"`
-	QUICMaxStreams                  int64         `yaml:"quic-max-streams" json:"quic-max-streams"`
-	QUICMaxIdleTimeout              time.Duration `yaml:"quic-max-idle-timeout" json:"quic-max-idle-timeout"`
-	QUICKeepAlive                   time.Duration `yaml:"quic-keep-alive" json:"quic-keep-alive"`
-	QUICMaxStreamReceiveWindow      interface{}   `yaml:"quic-max-stream-receive-window" json:"quic-max-stream-receive-window"`
-	QUICMaxConnectionReceiveWindow  interface{}   `yaml:"quic-max-connection-receive-window" json:"quic-max-connection-receive-window"`
-	QUICEnableDatagrams             bool          `yaml:"quic-enable-datagrams" json:"quic-enable-datagrams"`
-	QUICDisablePathMTUDiscovery     bool          `yaml:"quic-disable-path-mtu-discovery" json:"quic-disable-path-mtu-discovery"`
-	QUICDisable0RTT                 bool          `yaml:"quic-disable-0rtt" json:"quic-disable-0rtt"`
+	Name                           string        `yaml:"name" json:"name"`
+	Key                            string        `yaml:"key" json:"key"`
+	Host                           string        `yaml:"http-host" json:"http-host"`
+	PathPrefix                     string        `yaml:"http-path-prefix" json:"http-path-prefix"`
+	TLSCertPath                    string        `yaml:"http-tls-cert" json:"http-tls-cert"`
+	TLSCertBase64                  string        `yaml:"http-tls-cert-encoded" json:"http-tls-cert-encoded"`
+	Protocol                       string        `yaml:"protocol" json:"protocol"`
+	HTTP3Port                      int           `yaml:"http3-port" json:"http3-port"`
+	QUICMaxStreams                 int64         `yaml:"quic-max-streams" json:"quic-max-streams"`
+	QUICMaxIdleTimeout             time.Duration `yaml:"quic-max-idle-timeout" json:"quic-max-idle-timeout"`
+	QUICKeepAlive                  time.Duration `yaml:"quic-keep-alive" json:"quic-keep-alive"`
+	QUICMaxStreamReceiveWindow     interface{}   `yaml:"quic-max-stream-receive-window" json:"quic-max-stream-receive-window"`
+	QUICMaxConnectionReceiveWindow interface{}   `yaml:"quic-max-connection-receive-window" json:"quic-max-connection-receive-window"`
+	QUICEnableDatagrams            bool          `yaml:"quic-enable-datagrams" json:"quic-enable-datagrams"`
+	QUICDisablePathMTUDiscovery    bool          `yaml:"quic-disable-path-mtu-discovery" json:"quic-disable-path-mtu-discovery"`
+	QUICDisable0RTT                bool          `yaml:"quic-disable-0rtt" json:"quic-disable-0rtt"`
 }
 
 func parseByteCount(val interface{}, field string) (uint64, error) {
@@ -683,24 +689,24 @@ type HTTPServer struct {
 }
 
 type auxHTTPServer struct {
-	Host                            string        `yaml:"http-host" json:"http-host"`
-	Port                            int           `yaml:"http-port" json:"http-port"`
-	PathPrefix                      string        `yaml:"http-path-prefix" json:"http-path-prefix"`
-	TLSCertPath                     string        `yaml:"http-tls-cert" json:"http-tls-cert"`
-	TLSKeyPath                      string        `yaml:"http-tls-key" json:"http-tls-key"`
-	Compression                     int           `yaml:"compress" json:"compress"`
-	ChanceOfSimulatedFailure        float64       `yaml:"chance-of-simulated-failure" json:"chance-of-simulated-failure"`
-	HSTSEnabled                     bool          `yaml:"hsts-enabled" json:"hsts-enabled"`
-	EnableHTTP3                     bool          `yaml:"http3-enabled" json:"http3-enabled"`
-	HTTP3Port                       int           `yaml:"http3-port" json:"http3-port"`
-	QUICMaxStreams                  int64         `yaml:"quic-max-streams" json:"quic-max-streams"`
-	QUICMaxIdleTimeout              time.Duration `yaml:"quic-max-idle-timeout" json:"quic-max-idle-timeout"`
-	QUICKeepAlive                   time.Duration `yaml:"quic-keep-alive" json:"quic-keep-alive"`
-	QUICMaxStreamReceiveWindow      interface{}   `yaml:"quic-max-stream-receive-window" json:"quic-max-stream-receive-window"`
-	QUICMaxConnectionReceiveWindow  interface{}   `yaml:"quic-max-connection-receive-window" json:"quic-max-connection-receive-window"`
-	QUICEnableDatagrams             bool          `yaml:"quic-enable-datagrams" json:"quic-enable-datagrams"`
-	QUICDisablePathMTUDiscovery     bool          `yaml:"quic-disable-path-mtu-discovery" json:"quic-disable-path-mtu-discovery"`
-	HSTS                            hsts.Options  `yaml:"hsts-options" json:"hsts-options"`
+	Host                           string        `yaml:"http-host" json:"http-host"`
+	Port                           int           `yaml:"http-port" json:"http-port"`
+	PathPrefix                     string        `yaml:"http-path-prefix" json:"http-path-prefix"`
+	TLSCertPath                    string        `yaml:"http-tls-cert" json:"http-tls-cert"`
+	TLSKeyPath                     string        `yaml:"http-tls-key" json:"http-tls-key"`
+	Compression                    int           `yaml:"compress" json:"compress"`
+	ChanceOfSimulatedFailure       float64       `yaml:"chance-of-simulated-failure" json:"chance-of-simulated-failure"`
+	HSTSEnabled                    bool          `yaml:"hsts-enabled" json:"hsts-enabled"`
+	EnableHTTP3                    bool          `yaml:"http3-enabled" json:"http3-enabled"`
+	HTTP3Port                      int           `yaml:"http3-port" json:"http3-port"`
+	QUICMaxStreams                 int64         `yaml:"quic-max-streams" json:"quic-max-streams"`
+	QUICMaxIdleTimeout             time.Duration `yaml:"quic-max-idle-timeout" json:"quic-max-idle-timeout"`
+	QUICKeepAlive                  time.Duration `yaml:"quic-keep-alive" json:"quic-keep-alive"`
+	QUICMaxStreamReceiveWindow     interface{}   `yaml:"quic-max-stream-receive-window" json:"quic-max-stream-receive-window"`
+	QUICMaxConnectionReceiveWindow interface{}   `yaml:"quic-max-connection-receive-window" json:"quic-max-connection-receive-window"`
+	QUICEnableDatagrams            bool          `yaml:"quic-enable-datagrams" json:"quic-enable-datagrams"`
+	QUICDisablePathMTUDiscovery    bool          `yaml:"quic-disable-path-mtu-discovery" json:"quic-disable-path-mtu-discovery"`
+	HSTS                           hsts.Options  `yaml:"hsts-options" json:"hsts-options"`
 }
 
 func (h *HTTPServer) applyAux(aux *auxHTTPServer) (err error) {
